@@ -61,8 +61,7 @@ CLAIMS = {
          "@end, env_set = the specification's assign); from the source bytes of templates with assignments at any nesting position to "
          "the specification's scope chain (C04_from_source_bytes_to_output). Tied by correspondence.", "8.C04",
          "invariant by induction over evaluator fuel and assignment sequences + refinement to the scoped big-step specification"),
- "C05": ("proof", "PARTIAL only in that escapes spliced around code are decided on generated instances; text and comments between code are "
-         "theorems now. Theorems: for every byte string with no NUL, no "
+ "C05": ("proof", "Theorems: for every byte string with no NUL, no "
          "'{{' and no '@' that starts a directive keyword (table regenerated from token.go) the lexer model yields one text token whose "
          "literal is the input then EOF (loop invariant of readHTML), the parser one HTML statement, and the model's render is the input "
          "itself for any data; for every byte string whose only active syntax is escapes (a backslash directly before '{{' or before a "
@@ -70,16 +69,25 @@ CLAIMS = {
          "both cases what the reference scanner of Spec/Text.v says; for every lexer state in text mode standing on a terminated comment, "
          "NextToken is NextToken of the state just after the terminator the specification's find_term finds: no token, whatever the "
          "comment holds; and (Proofs/LexRound.v) in every source that spells a checked list of items, each text run between {{ }} blocks and "
-         "directives - any bytes but NUL, line feeds and backslashes included (not last, not before active syntax) - is one HTML token whose "
-         "literal is the run, at its exact (line, column), and comments before any item of text mode and at the end yield no token. "
-         "Exhaustive short strings over the escape/comment alphabet and spliced segments run against the reference scanner.",
-         "8.C05", "loop-invariant proofs over the lexer model (text, escapes, comment skip) + parser/evaluator computation + extracted reference scanner as oracle"),
- "C06": ("proof", "Step theorems on the loader and evaluator model: a page with @use loads to the layout's program alone; inserts are attached "
-         "to their reserves wherever these stand; a filled reserve shows exactly what the insert's body or expression renders in place, an "
-         "unfilled one nothing; insert without reserve and missing layout are load errors, a layout using a layout fails at render; '~x' is "
-         "'layouts/x'. The end-to-end substitution equation is decided on generated trees (String(page) = EvaluateString of the layout text "
-         "with reserves textually replaced).", "8.C06",
-         "definitional step theorems on loader/evaluator model + correspondence + substitution oracle on generated trees"),
+         "directives - any bytes but NUL, line feeds, backslashes and ESCAPES included (a backslash directly before '{{' or a directive "
+         "keyword goes, the escaped syntax is text) - is one HTML token whose literal is the run with its escapes removed, at its exact "
+         "(line, column), and comments before any item of text mode and at the end yield no token; with the parser and evaluator theorems "
+         "(C05_from_source_bytes_to_output) such a source renders its text runs, escapes removed, around the values of its code. "
+         "Exhaustive short strings over the escape/comment alphabet and spliced segments run against the reference scanner; the evidence "
+         "counts the generated sources that lie inside the round-trip theorem's domain.",
+         "8.C05", "loop-invariant proofs over the lexer model (text, escapes, comment skip, round trip) + parser/evaluator theorems + extracted reference scanner as oracle"),
+ "C06": ("proof", "End-to-end theorem on the loader and evaluator model (Proofs/LayoutRefine.v): for every layout tree - reserves at any "
+         "nesting depth inside @if / @elseif / @else / @each / @for, within the loader's depth budget - and every assignment of inserts "
+         "(block form, expression form, none), a page that declares @use of that layout and has no components loads to the layout alone and "
+         "Template.String renders exactly what the big-step semantics of Spec/Template.v gives for the layout tree with the inserts put "
+         "into its reserves (fill), with the data of the call: the body rendered at the reserve's place, the value of the expression "
+         "form, nothing for an unfilled reserve; an error where the semantics says error. Composed from: the loader's rewriting is fill up "
+         "to line numbers (induction on the depth budget), line numbers only matter in errors (LineIrrelevance.v), and the evaluator "
+         "refinement theorem, which now covers reserve nodes. Step theorems as before: a page with @use loads to the layout's program "
+         "alone; insert without reserve and missing layout are load errors, a layout using a layout fails at render; '~x' is "
+         "'layouts/x'. The equation against the implementation (String(page) = EvaluateString of the layout text with reserves textually "
+         "replaced) is decided on generated trees; duplicate inserts, and pages that also use components, are decided there too.", "8.C06",
+         "refinement theorem (evaluator vs big-step semantics with reserve nodes) + loader rewriting = fill (induction on depth) + correspondence + substitution oracle on generated trees"),
  "C07": ("proof", "Theorems on the loader and evaluator model: every use of a component is resolved on its own (block = function of the file "
          "and that use's slots), a passed body goes to the first top-level placeholder of its name and nothing else changes (induction over "
          "the statement list), undeclared slot / slot passed twice / missing file are load errors naming the component, a use evaluates its "
@@ -99,7 +107,7 @@ CLAIMS = {
          "token list ends in EOF or ILLEGAL, holds EOF only last, and an ILLEGAL token is followed by nothing but its own repetition), so "
          "every SOURCE whose token list holds an ILLEGAL token is rejected (C08_source_with_illegal_token_is_rejected); and an unterminated "
          "block is rejected (Proofs/OpenBlocks.v): the tokens of any complete statements followed by an @if or @each without its @end - "
-         "holding any complete statements and, nested to any depth, further open blocks - and the end of the input always end in errors. "
+         "holding any complete statements and, nested to any depth, further open blocks - or by an unterminated '{{ expr' / '{{ x = expr' (inside any open blocks or alone) - and the end of the input always end in errors. "
          "Not theorems: cuts inside an argument list or object literal (ParseTotal.v gives program-or-error there; the oracle demands "
          "the error on every prefix and mutation of generated templates and exhaustive lexeme sequences), and that the models are the "
          "code (correspondence, with a watchdog outside the process).", "8.C08",
@@ -108,8 +116,11 @@ CLAIMS = {
          "dot keys are identifiers, component arguments are object literals) no expression, statement, block, loop or render of the model "
          "reaches a Panic outcome, for every environment, data map and amount of fuel; operators and property access are total. The model marks "
          "every Go panic site with an explicit Panic; built-ins have no panic outcome and their guards are compared with the code on boundary "
-         "counts and wrong-kind arguments. The hypothesis wf_program is extracted and evaluated on every parsed program of the run.", "8.C09",
-         "never-Panic theorem by mutual induction + extracted hypothesis check + correspondence on an untyped program generator"),
+         "counts and wrong-kind arguments. The hypothesis wf_program is no longer only checked: Proofs/ParseWf.v proves that EVERY program the "
+         "parser model returns, from any token list that ends in EOF or ILLEGAL (every list the lexer produces: LexAll.v), is well-formed "
+         "(invariant over all 20 parse functions), so evaluate_string never reaches Panic for ANY source and data "
+         "(C09_evaluate_string_never_panics). wf_program is still extracted and evaluated on every parsed program of the run.", "8.C09",
+         "never-Panic theorem by mutual induction + parser-output well-formedness theorem + correspondence on an untyped program generator"),
  "C10": ("proof", "Theorems: the model's evalString equals the specification escaper; its output has no raw < >, every & starts an "
          "entity, quotes are kept, unescape and raw() give back the literal exactly. Tied by correspondence over an exhaustive "
          "alphabet sweep in six contexts.", "8.C10", "induction over the literal with one-byte lookahead + correspondence"),
